@@ -438,7 +438,15 @@ class Replayer:
         if w == "dcur":
             return self.d["_current"][k2]
         if w == "dhist":
-            return self.d["_history"][k2][i - 1]
+            h = self.d["_history"][k2]
+            if isinstance(h, self.np.ndarray):   # a batch taken out of the caller's stacked array: its own array (not a view of the stack)
+                if not hasattr(self, "_unstacked"):
+                    self._unstacked = {}
+                key = (id(h), k2, i)
+                if key not in self._unstacked:
+                    self._unstacked[key] = self.np.array(h[i - 1])
+                return self._unstacked[key]
+            return h[i - 1]
         if w == "res":
             return self.res[k2]
         raise core_failure(f"cannot locate {w} {k2} {i}")
@@ -559,6 +567,12 @@ class Replayer:
             self.d = {"_current": cur, "n_dim": 2,
                       "_history": {"x": [self.new("x", t) for _ in range(n)], "logl": [self.new("logl", t) for _ in range(n)],
                                    "beta": [1.0] * n, "logz": [0.0] * n}}
+            self._dictcount = getattr(self, "_dictcount", 0) + 1
+            if n >= 1 and self._dictcount % 2 == 0:
+                # histories handed over as ONE stacked array per quantity (what results() / get_history(key) return) instead of a
+                # list of batches: the caller keeps (and later overwrites) those arrays
+                self.d["_history"]["x"] = np.stack([np.array(b) for b in self.d["_history"]["x"]])
+                self.d["_history"]["logl"] = np.stack([np.array(b) for b in self.d["_history"]["logl"]])
             self.held = [h for h in self.held if h[2]]
             self.hold(self.d, "caller")
         elif op == "update_from_dict":
@@ -572,6 +586,18 @@ class Replayer:
         elif op == "save_state":
             with contextlib.redirect_stdout(io.StringIO()):
                 sm.save_state(os.path.join(self.tmp, "state.pkl"))
+                # a second export that leaves quantities out of the FILE (exclude=...) leaves the object as it is
+                snap = self.snapshot()
+                cur_before = {kk: (None if v is None else np.array(v, copy=True)) for kk, v in sm._current.items()}
+                sm.save_state(os.path.join(self.tmp, "state_partial.pkl"), exclude=["pbar", "pool", "distribute", "blobs", "x", "ess"])
+                after = self.snapshot()
+                cur_after = sm._current
+                same_cur = set(cur_before) == set(cur_after) and all(
+                    (cur_before[kk] is None and cur_after[kk] is None) or (cur_before[kk] is not None and cur_after[kk] is not None and np.array_equal(cur_before[kk], np.asarray(cur_after[kk])))
+                    for kk in cur_before)
+                if not self.impl_mode and (snap["lengths"] != after["lengths"] or snap["tags"] != after["tags"] or not same_cur):
+                    raise Diverged("save-exclude:state-changed", f"save_state(exclude=[... 'blobs', 'x', 'ess']) changed the object: history lengths {_short(snap['lengths'])} -> {_short(after['lengths'])}, "
+                                   f"current keys {sorted(set(cur_before) ^ set(cur_after))}")
         elif op == "load_state":
             sm.load_state(os.path.join(self.tmp, "state.pkl"))
             self.optin = {}
@@ -583,7 +609,10 @@ class Replayer:
             self.scribbles += 1
             self.nontrivial = True
         elif op == "scribble_list":
-            del self.d["_history"][k][:]
+            if isinstance(self.d["_history"][k], np.ndarray):
+                self.d["_history"][k].fill(SENT)   # the caller's stacked array: overwritten in place
+            else:
+                del self.d["_history"][k][:]
             self.scribbles += 1
             self.nontrivial = True
         elif op == "scribble_resdict":
